@@ -23,6 +23,9 @@ use similari::track::{
     ObservationsDb, Track, TrackAttributes, TrackAttributesUpdate, TrackStatus,
 };
 use similari::store::TrackStore;
+use similari::trackers::sort::WastedSortTrack;
+use similari::trackers::tracker_api::TrackerAPI;
+use similari::trackers::visual_sort::WastedVisualSortTrack;
 use similari::Errors;
 use similari_verif_harness::*;
 use std::sync::{mpsc, Arc, Mutex, OnceLock};
@@ -1002,6 +1005,12 @@ static C05_ORDER: Mutex<Option<Vec<u64>>> = Mutex::new(None); // shard-major ord
 static C05_RAND: Mutex<Option<Rng>> = Mutex::new(None);
 /// (shard a, m): m commands of shard a first, then every other shard completely, then the rest of shard a
 static C05_SPLIT: Mutex<Option<(u64, usize)>> = Mutex::new(None);
+/// (shard k, query number c): in the c-th distance query worker k is held for SLOW_HOLD of wall-clock time while the
+/// caller already waits for the results; the other workers answer at once
+static C05_SLOW: Mutex<Option<(u64, usize)>> = Mutex::new(None);
+static C05_QUERY_NO: std::sync::atomic::AtomicUsize = std::sync::atomic::AtomicUsize::new(0);
+static C05_HELPER: Mutex<Option<std::thread::JoinHandle<()>>> = Mutex::new(None);
+const SLOW_HOLD: Duration = Duration::from_millis(1600);
 static C05_TRACE: Mutex<Vec<String>> = Mutex::new(Vec::new());
 static C05_SHARDS: std::sync::atomic::AtomicUsize = std::sync::atomic::AtomicUsize::new(0);
 static C05_ENQ: std::sync::atomic::AtomicUsize = std::sync::atomic::AtomicUsize::new(0);
@@ -1024,8 +1033,44 @@ fn install_c05_hook() {
                     return;
                 }
                 C05_ENQ.store(0, Ordering::SeqCst);
-                // the last command of this query is queued: run the workers in the prescribed order
+                // a helper that still releases a held worker of the previous query finishes first
+                if let Some(h) = C05_HELPER.lock().unwrap().take() {
+                    let _ = h.join();
+                }
+                let qno = C05_QUERY_NO.fetch_add(1, Ordering::SeqCst);
                 let ncand = arg as usize;
+                if let Some((slow, at)) = *C05_SLOW.lock().unwrap() {
+                    if at == qno && (slow as usize) < shards {
+                        // the caller must already be waiting in all(): the schedule runs on a helper thread
+                        let g2 = g.clone();
+                        let h = std::thread::spawn(move || {
+                            let mut seq: Vec<u64> = vec![];
+                            'outer: for k in 0..shards as u64 {
+                                if k != slow {
+                                    for _ in 0..ncand {
+                                        if let Err(e) = exec_worker(k) {
+                                            g2.set_error(e);
+                                            break 'outer;
+                                        }
+                                        seq.push(k);
+                                    }
+                                }
+                            }
+                            std::thread::sleep(SLOW_HOLD);
+                            for _ in 0..ncand {
+                                if let Err(e) = exec_worker(slow) {
+                                    g2.set_error(e);
+                                    break;
+                                }
+                                seq.push(slow);
+                            }
+                            C05_TRACE.lock().unwrap().push(format!("{}:{}", total, seq.iter().map(|k| k.to_string()).collect::<Vec<_>>().join(".")));
+                        });
+                        *C05_HELPER.lock().unwrap() = Some(h);
+                        return;
+                    }
+                }
+                // the last command of this query is queued: run the workers in the prescribed order
                 let mut seq: Vec<u64> = vec![];
                 if let Some((a, m)) = *C05_SPLIT.lock().unwrap() {
                     let m = m.min(ncand);
@@ -1075,6 +1120,63 @@ fn install_c05_hook() {
     })));
 }
 
+fn enc_boxes(bs: &[Universal2DBox]) -> String {
+    bs.iter().map(enc_ubox).collect::<Vec<_>>().join("+")
+}
+
+/// everything else a tracker reports at the end of a history: the idle tracks of every scene, then - after the
+/// epochs have been skipped past max_idle - the finished tracks with their kept box (and feature) histories
+fn c05_final_sort(t: &mut Sort, scenes: &[u64]) -> Vec<String> {
+    let mut out = vec![];
+    for s in scenes {
+        let mut idle = t.idle_tracks_with_scene(*s);
+        idle.sort_by_key(|r| r.id);
+        out.push(format!("IDLE{}:{}", s, idle.iter().map(enc_sort_track).collect::<Vec<_>>().join(";")));
+    }
+    for s in scenes {
+        t.skip_epochs_for_scene(*s, 6);
+    }
+    let mut w: Vec<WastedSortTrack> = t.wasted().into_iter().map(WastedSortTrack::from).collect();
+    w.sort_by_key(|r| r.id);
+    out.push(format!(
+        "WASTED:{}",
+        w.iter()
+            .map(|r| format!("{},{},{},{},{},{}", r.id, r.epoch, r.length, r.scene_id, enc_boxes(&r.observed_boxes), enc_boxes(&r.predicted_boxes)))
+            .collect::<Vec<_>>()
+            .join(";")
+    ));
+    out
+}
+
+fn c05_final_visual(t: &mut VisualSort, scenes: &[u64]) -> Vec<String> {
+    let mut out = vec![];
+    for s in scenes {
+        let mut idle = t.idle_tracks_with_scene(*s);
+        idle.sort_by_key(|r| r.id);
+        out.push(format!("IDLE{}:{}", s, idle.iter().map(enc_sort_track).collect::<Vec<_>>().join(";")));
+    }
+    for s in scenes {
+        t.skip_epochs_for_scene(*s, 6);
+    }
+    let mut w: Vec<WastedVisualSortTrack> = t.wasted().into_iter().map(WastedVisualSortTrack::from).collect();
+    w.sort_by_key(|r| r.id);
+    out.push(format!(
+        "WASTED:{}",
+        w.iter()
+            .map(|r| {
+                let feats: Vec<String> = r
+                    .observed_features
+                    .iter()
+                    .map(|f| f.as_ref().map(|v| v.iter().map(|x| x.to_bits().to_string()).collect::<Vec<_>>().join("_")).unwrap_or("n".into()))
+                    .collect();
+                format!("{},{},{},{},{},{},{}", r.id, r.epoch, r.length, r.scene_id, enc_boxes(&r.observed_boxes), enc_boxes(&r.predicted_boxes), feats.join("+"))
+            })
+            .collect::<Vec<_>>()
+            .join(";")
+    ));
+    out
+}
+
 fn c05_run(kind: &str, hist_id: usize, calls: &[Call], margin: i64, shards: usize, order: &str, perm: Option<Vec<u64>>, rseed: u64) {
     use std::sync::atomic::Ordering;
     let g = gates();
@@ -1084,6 +1186,11 @@ fn c05_run(kind: &str, hist_id: usize, calls: &[Call], margin: i64, shards: usiz
     C05_ENQ.store(0, Ordering::SeqCst);
     C05_SHARDS.store(if gated { shards } else { 0 }, Ordering::SeqCst);
     *C05_ORDER.lock().unwrap() = perm;
+    C05_QUERY_NO.store(0, Ordering::SeqCst);
+    *C05_SLOW.lock().unwrap() = order.strip_prefix("slow:").map(|x| {
+        let (k, c) = x.split_once('.').unwrap();
+        (k.parse().unwrap(), c.parse().unwrap())
+    });
     *C05_SPLIT.lock().unwrap() = order.strip_prefix("split:").map(|x| {
         let (a, m) = x.split_once('.').unwrap();
         (a.parse().unwrap(), m.parse().unwrap())
@@ -1094,6 +1201,9 @@ fn c05_run(kind: &str, hist_id: usize, calls: &[Call], margin: i64, shards: usiz
     std::thread::spawn(move || {
         let r = guarded(|| {
             let mut out: Vec<String> = vec![];
+            let mut scenes: Vec<u64> = calls_c.iter().map(|(s, _)| *s).collect();
+            scenes.sort();
+            scenes.dedup();
             if kind_s == "sort" {
                 let mut t = Sort::new(shards, 1, 3, PositionalMetricType::IoU(0.3), 0.05, None, 1.0 / 20.0, 1.0 / 160.0);
                 for (sid, ds) in &calls_c {
@@ -1101,6 +1211,7 @@ fn c05_run(kind: &str, hist_id: usize, calls: &[Call], margin: i64, shards: usiz
                     let r = t.predict_with_scene(*sid, &boxes);
                     out.push(r.iter().map(enc_sort_track).collect::<Vec<_>>().join(";"));
                 }
+                out.extend(c05_final_sort(&mut t, &scenes));
             } else {
                 let mut t = VisualSort::new(shards, &c05_visual_opts());
                 for (sid, ds) in &calls_c {
@@ -1109,6 +1220,7 @@ fn c05_run(kind: &str, hist_id: usize, calls: &[Call], margin: i64, shards: usiz
                     let r = t.predict_with_scene(*sid, &obs);
                     out.push(r.iter().map(enc_sort_track).collect::<Vec<_>>().join(";"));
                 }
+                out.extend(c05_final_visual(&mut t, &scenes));
             }
             out
         });
@@ -1120,6 +1232,9 @@ fn c05_run(kind: &str, hist_id: usize, calls: &[Call], margin: i64, shards: usiz
         Ok(Some(out)) => recs = out.join("/"),
         Ok(None) => status = "panic".into(),
         Err(_) => status = "hang".into(),
+    }
+    if let Some(h) = C05_HELPER.lock().unwrap().take() {
+        let _ = h.join();
     }
     if let Some(e) = g.take_error() {
         status = format!("stuck:{}", e.replace(' ', "_"));
@@ -1293,6 +1408,12 @@ fn gen_c05(seed: u64, n: usize, tier: &str) {
         // input, the history contains an exact tie and is skipped by the driver
         for _ in 0..4 {
             c05_run(kind, h, &calls, margin, 1, "free", None, 0);
+        }
+        // a worker that is merely late (held for 1.6 s while the caller already waits) must not change anything
+        if h < 2 || (thorough && h < 8) {
+            let shards = 2 + (h % 2);
+            let at = 2.min(calls.len() - 1);
+            c05_run(kind, h, &calls, margin, shards, &format!("slow:{}.{}", shards - 1, at), Some((0..shards as u64).collect()), 0);
         }
         for shards in 1..=8usize {
             if shards <= 3 {
